@@ -14,6 +14,7 @@ The theorems about this composition (Props/C01, C02, C06: `module_connections_pr
 -/
 import Hdl21Model.ExportWF
 import Hdl21Model.ConnTypes
+import Hdl21Model.ArrayPass
 namespace Hdl21.ModulePipe
 open Hdl21 Hdl21.Pkg Hdl21.RoundTrip Hdl21.ExportWF
 
@@ -75,6 +76,65 @@ def pipelineDesign (fuel : Nat) (exts : List PExt) : List HModule → List PModu
     match pipeline fuel (targetPorts ⟨[], exts⟩ acc) h with
     | .ok p => pipelineDesign fuel exts rest (acc ++ [p])
     | .error e => .error e
+
+/-! ## instance arrays (`ArrayFlattener`, between `ConnTypes` and `SliceResolver`) -/
+
+/-- `n * M(…)(…)` -/
+structure HArr where
+  name : String
+  ref : PRef
+  params : List (String × String)
+  n : Nat
+  conns : List (String × SConn)
+
+/-- the connectables one element is left with (a bundle instance is outside fragment F1) -/
+def elemSConns : List (String × ArrayPass.AElem) → Except Err (List (String × SConn))
+  | [] => .ok []
+  | (p, e) :: rest =>
+    match e.conn, elemSConns rest with
+    | some c, .ok r => .ok ((p, c) :: r)
+    | none, _ => .error (.reject "bundle instance on an array port")
+    | _, .error x => .error x
+
+def mkElems (a : HArr) (nm : String → Nat → String) : Nat → List (List (String × ArrayPass.AElem)) → Except Err (List HInst)
+  | _, [] => .ok []
+  | k, es :: rest =>
+    match elemSConns es, mkElems a nm (k + 1) rest with
+    | .ok cs, .ok r => .ok (⟨nm a.name k, a.ref, a.params, cs⟩ :: r)
+    | .error x, _ => .error x
+    | _, .error x => .error x
+
+/-- one array through the model of the pass (`ArrayPass.expand`: per element, per port, the whole connection or its `k`-th `w` bits);
+    `nm array k` is the name the pass gives element `k` (`flatname([array, k])` against the live namespace — C05's business) -/
+def expandArr (ctx : PRef → Option (List (String × Nat))) (nm : String → Nat → String) (a : HArr) : Except Err (List HInst) :=
+  match ctx a.ref with
+  | none => .error (.reject "undefined target")
+  | some ports =>
+    match ArrayPass.expand (ports.map fun pw => (pw.1, ArrayPass.Port.sig pw.2)) a.n (a.conns.map fun pc => (pc.1, ArrayPass.AConn.sig pc.2)) with
+    | .error e => .error (.reject e)
+    | .ok els => mkElems a nm 0 els
+
+/-- the pass on a module: the arrays in the order it takes them (`instarrays.popitem()`: last declared first), the elements added
+    after the instances the module has -/
+def flattenArrays (ctx : PRef → Option (List (String × Nat))) (nm : String → Nat → String) : List HArr → HModule → Except Err HModule
+  | [], h => .ok h
+  | a :: rest, h =>
+    match expandArr ctx nm a with
+    | .ok els => flattenArrays ctx nm rest ⟨h.name, h.signals, h.ports, h.instances ++ els⟩
+    | .error e => .error e
+
+/-- the default pass list on an F1 module that also has instance arrays: `Orphanage` looks at the arrays' connections too, the first
+    `ConnTypes` does not look at arrays, `ArrayFlattener` expands them, and from there on the elements are instances like any other
+    (their checks come with `ConnTypesRepeat` — here: with `pipeline`'s own checks on the expanded module, before it resolves
+    instead of after: the same outcome, resolution keeps widths and signals). -/
+def pipelineA (fuel : Nat) (ctx : PRef → Option (List (String × Nat))) (nm : String → Nat → String) (arrs : List HArr) (h : HModule) :
+    Except Err PModule :=
+  if !(arrs.all fun a => a.conns.all fun pc => sigsOK (sigList h) pc.2) then .error (.reject "Orphanage")
+  else if !orphanage h then .error (.reject "Orphanage")
+  else if !connTypes ctx h then .error (.reject "ConnTypes")
+  else match flattenArrays ctx nm arrs.reverse h with
+    | .error e => .error e
+    | .ok h' => pipeline fuel ctx h'
 
 /-- fuel that the resolver never runs out of on the connections of `h` (`resolve_total`: `needR c` suffices for a connection that
     has a denotation; `module_elaboration_accepts` uses it) -/
